@@ -110,3 +110,20 @@ Theorem C05_api_sample_never_changes : forall c ops1 ops2 k v,
   lookup_st (p_w (fold_left (api_state c) (ops1 ++ ops2) py_init)) k = Some v.
 Proof. exact api_sample_never_changes_gapped. Qed.
 Print Assumptions C05_api_sample_never_changes.
+
+(* continuous mode, un-chunked layout: what was written stays readable with its value (a slot that was
+   never written reads as fill and may be written later); continuous mode with compression/checksums *)
+Theorem C05_api_sample_never_changes_continuous_unchunked : forall c ops1 ops2 k v,
+  vcfg c -> c_chunk c = false -> c_cont c = true -> Forall api_arg_ok (ops1 ++ ops2) ->
+  s_map (fold_left (api_spec_cont c) ops1 spec_init) k = Some v ->
+  lookup_st (p_w (fold_left (api_state c) ops1 py_init)) k = Some v /\
+  lookup_st (p_w (fold_left (api_state c) (ops1 ++ ops2) py_init)) k = Some v.
+Proof. exact api_sample_never_changes_continuous_unchunked. Qed.
+Print Assumptions C05_api_sample_never_changes_continuous_unchunked.
+
+Theorem C05_api_sample_never_changes_continuous_chunked : forall c ops1 ops2 k v,
+  vcfg c -> c_chunk c = true -> c_cont c = true -> Forall api_arg_ok (ops1 ++ ops2) ->
+  lookup_st (p_w (fold_left (api_state c) ops1 py_init)) k = Some v ->
+  lookup_st (p_w (fold_left (api_state c) (ops1 ++ ops2) py_init)) k = Some v.
+Proof. exact api_sample_never_changes_continuous_chunked. Qed.
+Print Assumptions C05_api_sample_never_changes_continuous_chunked.
